@@ -44,7 +44,9 @@ Entailed(U, E) == { p \in U \X U : \A g \in [U -> U] : Compatible(KernelOf(U, g)
 
 \* ---------------------------------------------------------------- a faster, equivalent formulation (representative maps)
 \* used by the trace specification (large universes, many explanations); S checks that it agrees with Closure on the small scope
-Join(rm, x, y) == LET rx == rm[x] ry == rm[y] IN IF rx = ry THEN rm ELSE [u \in DOMAIN rm |-> IF rm[u] = ry THEN rx ELSE rm[u]]
+\* (TLCEval: TLC keeps [u \in S |-> e] unevaluated; a chain of k lazy joins would cost 2^k per look-up)
+Join(rm, x, y) == LET rx == rm[x] ry == rm[y] IN
+                  IF rx = ry THEN rm ELSE TLCEval([u \in DOMAIN rm |-> LET v == rm[u] IN IF v = ry THEN rx ELSE v])
 RECURSIVE JoinAll(_,_)
 JoinAll(rm, S) == IF S = {} THEN rm ELSE LET p == CHOOSE p \in S : TRUE IN JoinAll(Join(rm, p[1], p[2]), S \ {p})
 \* for every f-equation the pair (its result, the result of the canonical f-equation with congruent arguments)
